@@ -61,6 +61,8 @@ KRsa13 == AsymKey("rsa2048a", 0, NONE, NONE)
 GoodEc == Tok("ES256", <<>>, <<StrM("iss", "me")>>, Sig("valid", "ES256", KEc13))
 PreEc == <<LoadOp(<<KEc13, KRsa13>>), CNewOp, CSetKeyOp("ES256", 0)>>
 EcElems == { <<V(GoodEc)>>, <<V([GoodEc EXCEPT !.sig = Sig("flipbit", "ES256", KEc13)])>>,
+             \* the signature just accepted, under a payload / a header altered after signing
+             <<V([GoodEc EXCEPT !.alter = "pay"])>>, <<V([GoodEc EXCEPT !.alter = "hdr"])>>,
              <<CSetKeyOp("RS256", 1), V(Tok("RS256", <<>>, <<>>, Sig("garbage", "RS256", KRsa13) @@ [len |-> 256])), CSetKeyOp("ES256", 0)>>,
              <<[op |-> "Load", ring |-> 0, via |-> "load", doc |-> "keys", keys |-> <<WithDefect(AsymKey("p256b", 0, NONE, "bad"), "y", "offcurve")>>]>>,
              <<[op |-> "CErrClear", c |-> 0]>> }
@@ -106,6 +108,16 @@ NcElems ==
 RECURSIVE NcSeqs(_)
 NcSeqs(n) == IF n = 0 THEN {<<>>} ELSE { e \o t : e \in NcElems, t \in NcSeqs(n - 1) }
 NcFam == [a \in NcElems |-> { Pre3 \o a \o q : q \in NcSeqs(3) }]
+\* deterministic public-key signatures (RS256, EdDSA): the token just accepted, then the same signature under a
+\* payload / a header altered after signing - what was accepted before is no reason to accept now
+KEd13 == AsymKey("ed25519a", 0, NONE, NONE)
+GoodOf(a, k) == Tok(a, <<>>, <<StrM("iss", "me")>>, Sig("valid", a, k))
+MemoElems(a, k) == { <<V(GoodOf(a, k))>>, <<V([GoodOf(a, k) EXCEPT !.alter = "pay"])>>, <<V([GoodOf(a, k) EXCEPT !.alter = "hdr"])>>,
+                     <<V([GoodOf(a, k) EXCEPT !.sig = Sig("flipbit", a, k)])>>, <<[op |-> "CErrClear", c |-> 0]>> }
+RECURSIVE MemoSeqs(_, _, _)
+MemoSeqs(n, a, k) == IF n = 0 THEN {<<>>} ELSE { e \o t : e \in MemoElems(a, k), t \in MemoSeqs(n - 1, a, k) }
+MemoFam == [ak \in { <<"RS256", KRsa13>>, <<"EdDSA", KEd13>> } |->
+              { <<LoadOp(<<ak[2]>>), CNewOp, CSetKeyOp(ak[1], 0)>> \o q : q \in MemoSeqs(4, ak[1], ak[2]) }]
 \* the clock moves forwards AND backwards between calls (a corrected clock, a test harness): the verdict is computed
 \* from the clock of the call, not from any clock seen before
 Tmid == WAdd(T0, WOf(500))
@@ -118,7 +130,7 @@ RECURSIVE ClkSeqs(_)
 ClkSeqs(n) == IF n = 0 THEN {<<>>} ELSE { e \o t : e \in ClkElems, t \in ClkSeqs(n - 1) }
 ClkFam == [a \in ClkElems |-> { Pre3 \o a \o q : q \in ClkSeqs(3) }]
 MCSpec == ISpecP(IF Part = "nc" THEN InFam(NcFam)
-                 ELSE (InFam(CheckerFam) \/ InFam(NoKeyFam) \/ InFam(BuilderFam) \/ script \in BuilderNoKey \/ InFam(ClaimFam) \/ InFam(LifeFam) \/ InFam(EcFam) \/ InFam(ClkFam)))
+                 ELSE (InFam(CheckerFam) \/ InFam(NoKeyFam) \/ InFam(BuilderFam) \/ script \in BuilderNoKey \/ InFam(ClaimFam) \/ InFam(LifeFam) \/ InFam(EcFam) \/ InFam(ClkFam) \/ InFam(MemoFam)))
 
 \* ---- on the specification: the configuration a verdict is computed from is
 \* exactly what the configuration calls made it; verify, generate and
